@@ -3,7 +3,8 @@
    (numpy / pathlib / file I/O): transform_points, _get_filepath, the header file, close. *)
 From Coq Require Import List Bool ZArith NArith QArith Qabs String Ascii.
 Import ListNotations.
-From Femto Require Import Base.Num Geo.Rigid Gen.PyPrelude.
+From Femto Require Import Base.Num Geo.Rigid.
+From FemtoTie Require Import PyPrelude.
 
 Record pcfg := {
   laser : string;
